@@ -277,3 +277,5 @@ def _empty_storage(env, cfg, ctx):
     guarded(env, 'update', storage.update, x1, y1)
     xs, ys_now = storage.get_data()
     env.claim('first_observation_stored_alone_with_its_target', len(xs) == 1 and xs[0] is x1 and len(ys_now) == 1 and same_term(ys_now[0], y1))
+
+META['explanation'] += ' Further groups: sparse instance for the default imputer; imputing from an empty storage leaves it empty and usable; the model object carries decoy estimator methods that must not be called.'
